@@ -123,6 +123,12 @@ def _merge(repo: Repo, rep: Report) -> None:
                 at = {a: b for a, b in q.atoms.items() if f"other, {k}" in a or f"other.{k}" in a}
                 if "cls" not in txt and "other" not in txt and "others_value" not in txt:
                     wrong_src.add(f"{k} = {txt[:40]}")
+    # both sides are read with getattr (inherited options count): vars(other) / other.__dict__ see only the options a dialect declares itself
+    raw = [ast.unparse(n)[:60] for n in ast.walk(fi.node) if (isinstance(n, ast.Call) and ast.unparse(n.func) == "vars")
+           or (isinstance(n, ast.Attribute) and n.attr == "__dict__" and isinstance(n.value, ast.Name) and n.value.id in ("other", "cls"))]
+    if raw:
+        rep.violation("R13.1", fi.key, f"Dialect.merge reads options through `{raw[0]}`", "options a dialect inherits from a parent Dialect subclass are not in its own __dict__: "
+                      "they are silently replaced by the other side's values when the dialect is merged into a format dialect", loc=fi.loc)
     if n_paths < 2:
         rep.undecide("R13.1", f"Dialect.merge: only {n_paths} evaluated paths")
     for o in options:
